@@ -95,9 +95,10 @@ def enabled(root, st):
         if st.ne < 3 and st.nn == 3:
             ops.append(["AE", False])
             ops.append(["AE", True])
-        if st.node_unidx:
+        # (re-indexing also commits: it is a legitimate way to finalise rows that were added with no_commit=True)
+        if st.node_unidx or (st.uncommitted and st.nn > 0):
             ops.append(["RN"])
-        if st.edge_unidx:
+        if st.edge_unidx or (st.uncommitted and st.ne > 0):
             ops.append(["RE"])
         if st.uncommitted:
             ops.append(["CM"])
